@@ -408,6 +408,17 @@ pub fn host_premise_pool() -> Vec<String> {
             hosts.push(format!("XN--{}-1ga", f));
         }
     }
+    // label-boundary shapes: a combining mark right behind a mapped full stop, labels of 58..64 code points with one
+    // non-ASCII letter (no DNS length limit applies to URL hosts), A-labels of more than 63 bytes
+    for dot in ["\u{3002}", "\u{ff0e}", "\u{ff61}", "."] {
+        hosts.push(format!("www{}\u{301}b.example", dot));
+        hosts.push(format!("ab{}\u{301}c", dot));
+        hosts.push(format!("a{}b\u{301}.x", dot));
+    }
+    for n in [57usize, 58, 59, 60, 62, 63, 64, 100] {
+        hosts.push(format!("{}\u{fc}.example", "a".repeat(n)));
+        hosts.push(format!("x.\u{fc}{}", "b".repeat(n)));
+    }
     // a capital letter in every position class of an otherwise plain lower-case label (first, inner, last byte;
     // first / last label), digits and hyphens around it
     for c in ['A', 'E', 'Z'] {
